@@ -142,7 +142,7 @@ func work(w *mon.W) {
 
 var safePaths = []string{"/p", "/p/a", "/p/a/b.txt", "/", "/x-y_z/1"}
 var unsafePaths = []string{"/p/a b", "/p/%41", "/p/a/../b", "/p/\xc3\xbc", "/p/x;y", "/p//q", "/p/./r", "/p/%2e%2e/s", "/p/a%2fb"}
-var queries = []string{"", "a=1&b=2", "a=%20+&b", "x=%zz", "k=v&k=w", "q=\xc3\xbc"}
+var queries = []string{"", "a=1&b=2", "a=%20+&b", "x=%zz", "k=v&k=w", "q=\xc3\xbc", "next=/home/x"}
 
 func genReq(r *mon.Rand, i int, rawOnly bool) *areq {
 	a := &areq{Method: r.Str("GET", "POST", "PUT", "DELETE", "HEAD", "PATCH", "OPTIONS")}
@@ -180,7 +180,7 @@ func genReq(r *mon.Rand, i int, rawOnly bool) *areq {
 		a.BodyMode = "none"
 	}
 	if r.Chance(6) {
-		a.Frag = r.Str("frag", "sec-2", "a?b=c")
+		a.Frag = r.Str("frag", "sec-2", "a?b=c", "/route/1")
 	}
 	if a.Method == "GET" && r.Chance(8) {
 		a.SkipBody = true
